@@ -23,6 +23,15 @@ CHECKS = {
             "the exported datagram sequence is compared with the sender's per-datagram STREAM concatenations, and monitors compare every reconstructed packet number "
             "and parsed frame list with what was sent. Held on the executions observed.",
             TRUST, "3/C02"),
+    "C03": ("fault_enumeration", "fault injection into generated multi-flow scenes, each fault run compared with the fault-free run of the same scene by the output oracle (run completes; bystanders' packets identical; victim exports at most a prefix/subsequence of its ground truth)",
+            "Per scene every fault of each kind is enumerated where the space is small (every packet deletion, every truncation point of the victim, every key-log "
+            "subset for TLS 1.3/QUIC, eight unknown suite ids) and sampled where it is not (bit flips, overwrites, foreign UDP payloads over all first bytes and lengths 1..8). "
+            "The real run() is executed per fault; crash signatures observed are listed in the evidence (none on the repaired tree).",
+            TRUST + "; the scene's fault-free run must itself be exact", "3/C03"),
+    "C04": ("exploration", "metamorphic runtime oracle over interleavings: per-connection exported packets of the merged capture == whole output of the capture filtered to that connection",
+            "Scenes of 2..12 (soak: 60..200) TLS and QUIC connections under adversarial endpoint patterns are merged by order-preserving merges; the number of distinct "
+            "merge orders actually explored is reported. Held on the interleavings explored, not for all.",
+            TRUST, "3/C04"),
     "C05": ("exploration", "runtime monitor on the real Session.handle_tls_record (record list handed over == sender's record list, exactly once, in order) over exhaustively enumerated deliveries + end-to-end stream equality under perturbed delivery",
             "Real Session objects are fed real packets; for short streams every cut set, every single/double duplicate insertion and every bounded displacement is "
             "enumerated (tens of thousands of delivery histories per quick run), including sequence-number wrap at every offset; full end-to-end runs repeat the relation "
